@@ -654,6 +654,51 @@ global ZeroAddress
 assert
 retsub
 """)
+HAND["h019"] = ("the last method ends with a callsub and falls through into the block the other methods jump to: the return point of a caller that a dispatch path cuts away is a block the function keeps", """
+#pragma version 7
+txna ApplicationArgs 0
+byte "a"
+==
+bnz method_a
+txna ApplicationArgs 0
+byte "b"
+==
+bnz method_b
+err
+method_a:
+txn RekeyTo
+global ZeroAddress
+==
+assert
+txn Fee
+int 1000
+<=
+bnz done
+err
+method_b:
+txn OnCompletion
+int NoOp
+==
+assert
+callsub check
+done:
+global GroupSize
+int 1
+==
+assert
+int 1
+return
+check:
+txn RekeyTo
+global ZeroAddress
+==
+assert
+txn CloseRemainderTo
+global ZeroAddress
+==
+assert
+retsub
+""")
 
 
 def deep_chain(n):
@@ -782,9 +827,17 @@ def program(rng):
     last = nmeth - 1
     lines += bodies[last]
     lines += ["b tail"] if rejoin else ["int 1", "return"]
-    for m in range(nmeth - 1):
+    fall_through = None
+    if rejoin and rng.random() < 0.5:
+        fall_through = rng.randrange(nmeth - 1)  # this method is laid out last and falls into tail
+    order_m = [m for m in range(nmeth - 1) if m != fall_through] + ([fall_through] if fall_through is not None else [])
+    for m in order_m:
         lines.append("meth%d:" % m)
         lines += bodies[m]
+        if m == fall_through:
+            if subs:
+                lines.append("callsub " + rng.choice(subs))
+            continue
         lines += ["b tail"] if rejoin else ["int 1", "return"]
     if rejoin:
         lines.append("tail:")
